@@ -32,6 +32,8 @@ ANCESTORS: Dict[str, Tuple[str, ...]] = {
     "builtin:int": ("builtin:int",),
     "builtin:bool": ("builtin:bool", "builtin:int"),
     "builtin:str": ("builtin:str",),
+    "builtin:float": ("builtin:float",),
+    "builtin:bytes": ("builtin:bytes",),
     "builtin:NoneType": ("builtin:NoneType",),
     "builtin:type": ("builtin:type",),
     "class:Meta": ("class:Meta", "builtin:type"),  # an instance of it is a class with a metaclass
@@ -326,6 +328,11 @@ class InferScenario:
                 kwargs = {k: st.freeze(v) for k, v in kwargs.items()}
                 self.calls.append((name, tuple(args), dict(kwargs)))
                 b = _bind(callee, args, kwargs)
+                if name == "get_type" and getattr(self, "fail_nested", None):
+                    # fault injection: typing an element fails (a value nested too deeply: RecursionError)
+                    from mtsa.absint import raise_exc
+                    raise_exc(st, self.fail_nested)
+                    return U("typing the element failed")
                 if name == "get_type":
                     return R("typeof", of=b.get("obj", U("?")), limit=b.get("max_typed_dict_size", K("<missing>")))
                 if name == "shrink_types":
